@@ -659,6 +659,11 @@ func genC17(r *simrt.Rand, tier string, idx uint64) *Plan {
 		}
 	}
 	p.Clients = []ClientPlan{cp}
+	if idx%4 == 1 && p.Params["sched"] == 2 {
+		// routing is paused for a while in the middle of the run: the caller waits inside the Client;
+		// that wait is not part of any call's duration
+		p.Clients = append(p.Clients, ClientPlan{Ops: []Op{{Kind: "sleep", N: 1000 * (100 + r.Intn(1500))}, {Kind: "fallback", N: 1000 * (100 + r.Intn(900))}}})
+	}
 	return p
 }
 
@@ -873,6 +878,14 @@ func genC18(r *simrt.Rand, tier string, idx uint64) *Plan {
 		for c := 0; c < 1+r.Intn(8); c++ {
 			p.Clients = append(p.Clients, ClientPlan{Ops: []Op{{Kind: "sleep", N: r.Intn(50) * 1000}, {Kind: cForms[r.Intn(len(cForms))]}}})
 		}
+		if comes {
+			// callers that arrive at the very instant the detector's probe finds the target up
+			// (registration races the release of the waiters)
+			tickAt := (up + 99) / 100 * 100
+			for c := 0; c < r.Intn(4); c++ {
+				p.Clients = append(p.Clients, ClientPlan{Ops: []Op{{Kind: "sleep", N: tickAt * 1000}, {Kind: "spin", N: r.Intn(8)}, {Kind: cForms[r.Intn(len(cForms))]}}})
+			}
+		}
 	case 2: // Close while callers wait
 		for i := range p.Targets {
 			p.Targets[i].Up = [][2]int{{0, 0}}
@@ -954,6 +967,10 @@ func genC18(r *simrt.Rand, tier string, idx uint64) *Plan {
 		for c := 0; c < 1+r.Intn(5); c++ {
 			p.Clients = append(p.Clients, ClientPlan{Ops: []Op{{Kind: "sleep", N: (1 + r.Intn(50)) * 1000}, {Kind: cForms[r.Intn(len(cForms))]}}})
 		}
+		// callers that arrive at the very instant the pause ends (registration races the release)
+		for c := 0; c < r.Intn(4); c++ {
+			p.Clients = append(p.Clients, ClientPlan{Ops: []Op{{Kind: "sleep", N: fb * 1000}, {Kind: "spin", N: r.Intn(8)}, {Kind: cForms[r.Intn(len(cForms))]}}})
+		}
 		// callers that arrive well after the pause has ended: routing is back to normal
 		for c := 0; c < 1+r.Intn(3); c++ {
 			p.Clients = append(p.Clients, ClientPlan{Ops: []Op{{Kind: "sleep", N: (fb + 1200 + r.Intn(800)) * 1000}, {Kind: cForms[r.Intn(len(cForms))]}}})
@@ -993,6 +1010,16 @@ func checkC18(w *World, run *simrt.Run) {
 				continue
 			}
 			took := r.EndT - r.StartT
+			if p.Params["up_ms"] > 0 && r.StartT >= up && r.StartT+dt > r.StartT+bound {
+				// the target is already up when this caller arrives: routed, or parked and released,
+				// within the detection bound
+				if r.Err != "" || r.EndT > r.StartT+bound {
+					w.Violate("C18.wake", "caller-arriving-after-target-became-live-not-served:"+r.Form, fmt.Sprintf("caller %d %s started %v, target live since %v, returned %q at %v (DialTimeout %v)", r.Caller, r.Form, r.StartT, up, r.Err, r.EndT, dt))
+				} else {
+					w.Probe("late-arrival-served")
+				}
+				continue
+			}
 			if p.Params["up_ms"] > 0 && r.StartT+dt > up+bound {
 				// a target became live before this caller's DialTimeout: released within the bound
 				if r.EndT > up+bound && r.StartT < up {
@@ -1111,6 +1138,16 @@ func checkC18(w *World, run *simrt.Run) {
 					w.Violate("C18.fallback", "routing-not-resumed-after-fallback:"+r.Form, fmt.Sprintf("caller %d %s started %v, the Fallback pause ended at %v: returned %q after %v", r.Caller, r.Form, r.StartT, fbEnd, r.Err, r.EndT-r.StartT))
 				} else {
 					w.Probe("routed-at-once-after-fallback")
+				}
+				continue
+			}
+			if r.StartT >= fbEnd && r.StartT+dt > r.StartT+bound {
+				// arrives at the end of the pause or shortly after: routed, or parked and released by
+				// the next detector tick
+				if r.Err != "" || r.EndT > r.StartT+bound {
+					w.Violate("C18.fallback", "caller-arriving-at-end-of-fallback-not-served:"+r.Form, fmt.Sprintf("caller %d %s started %v, the pause ended at %v: returned %q at %v (DialTimeout %v)", r.Caller, r.Form, r.StartT, fbEnd, r.Err, r.EndT, dt))
+				} else {
+					w.Probe("arrival-at-end-of-fallback-served")
 				}
 				continue
 			}
